@@ -97,7 +97,7 @@ func genHex(n int, mixed bool) *rapid.Generator[string] {
 
 // mutate applies one generated edit to a well-formed string. Kind 0 leaves it intact.
 func mutate(t *rapid.T, s string) (string, string) {
-	kind := rapid.IntRange(0, 11).Draw(t, "mut")
+	kind := rapid.IntRange(0, 13).Draw(t, "mut")
 	b := []byte(s)
 	pos := func(n int) int {
 		if n <= 0 {
@@ -153,8 +153,15 @@ func mutate(t *rapid.T, s string) (string, string) {
 			k = len(b)
 		}
 		return string(b[:len(b)-k]), "shorten-hex"
-	default:
+	case 11:
 		return rapid.String().Draw(t, "free"), "free-string"
+	default: // 12, 13: one position takes any of the 256 byte values
+		if len(b) == 0 {
+			return s, "intact"
+		}
+		p := pos(len(b))
+		b[p] = rapid.Byte().Draw(t, "anybyte")
+		return string(b), "replace-char-any-byte"
 	}
 }
 
